@@ -96,7 +96,16 @@ func runCrash(r *Runner) {
 		if r.violated() {
 			return
 		}
-		if powerPct > 0 && ctx.rng.Intn(100) < powerPct {
+		// power-loss cuts for a seeded share of the positions - and always right after a directory operation (rename,
+		// remove, remove-all): that is where a file that was never flushed becomes the only copy of something
+		forced := false
+		if k > 0 && powerPct > 0 {
+			switch ctx.journal[k-1].Kind {
+			case vos.KRename, vos.KRemove, vos.KRemoveAll:
+				forced = true
+			}
+		}
+		if powerPct > 0 && (forced || ctx.rng.Intn(100) < powerPct) {
 			tree := vos.Replay(nil, ctx.journal, k, nil)
 			for c := 0; c < cuts; c++ {
 				cut := ctx.genCut(tree, c)
